@@ -67,6 +67,8 @@ where
     ) -> Result<LocalChannelId, Error> {
         let id = {
             // NB: This cannot reasonably overflow.
+            #[cfg(aranya_core_verif)]
+            crate::verif::yield_point("nid.inc");
             let next = self.inner.shm().next_chan_id.fetch_add(1, Ordering::SeqCst);
             LocalChannelId::new(next)
         };
@@ -89,11 +91,15 @@ where
 
             ShmChan::<CS>::init(chan, id, label_id, peer_id, &keys, &self.rng);
 
+            #[cfg(aranya_core_verif)]
+            crate::verif::yield_point("gen.inc");
             let generation = side.generation.fetch_add(1, Ordering::AcqRel);
             debug!("write side generation={}", generation + 1);
 
             // We've updated the generation and the channel, so
             // we're now free to grow the list.
+            #[cfg(aranya_core_verif)]
+            crate::verif::yield_point("len.set");
             side.len += 1;
             assert!(side.len <= side.cap);
             debug!("write side len={}", side.len);
@@ -109,11 +115,15 @@ where
 
             ShmChan::<CS>::init(side.raw_at(idx)?, id, label_id, peer_id, &keys, &self.rng);
 
+            #[cfg(aranya_core_verif)]
+            crate::verif::yield_point("gen.inc");
             let generation = side.generation.fetch_add(1, Ordering::AcqRel);
             debug!("read side generation={}", generation + 1);
 
             // We've updated the generation and the channel, so
             // we're now free to grow the list.
+            #[cfg(aranya_core_verif)]
+            crate::verif::yield_point("len.set");
             side.len += 1;
             assert!(side.len <= side.cap);
             debug!("read side len={}", side.len);
@@ -121,6 +131,8 @@ where
             off
         };
 
+        #[cfg(aranya_core_verif)]
+        crate::verif::yield_point("woff.store");
         self.inner
             .shm()
             .write_off
@@ -152,6 +164,8 @@ where
 
             // As a precaution, update the generation before we
             // do anything else.
+            #[cfg(aranya_core_verif)]
+            crate::verif::yield_point("gen.inc");
             let generation = side.generation.fetch_add(1, Ordering::AcqRel);
             debug!("write side generation={}", generation + 1);
 
@@ -170,6 +184,8 @@ where
 
             // As a precaution, update the generation before we
             // do anything else.
+            #[cfg(aranya_core_verif)]
+            crate::verif::yield_point("gen.inc");
             let generation = side.generation.fetch_add(1, Ordering::AcqRel);
             debug!("read side generation={}", generation + 1);
 
@@ -180,6 +196,8 @@ where
             off
         };
 
+        #[cfg(aranya_core_verif)]
+        crate::verif::yield_point("woff.store");
         self.inner
             .shm()
             .write_off
@@ -205,6 +223,8 @@ where
             off
         };
 
+        #[cfg(aranya_core_verif)]
+        crate::verif::yield_point("woff.store");
         shm.write_off.store(read_off.into(), Ordering::SeqCst);
 
         Ok(())
@@ -239,6 +259,8 @@ where
             off
         };
 
+        #[cfg(aranya_core_verif)]
+        crate::verif::yield_point("woff.store");
         shm.write_off.store(read_off.into(), Ordering::SeqCst);
 
         Ok(())
@@ -248,5 +270,17 @@ where
         let mutex = self.inner.load_write_list()?;
         let list = mutex.lock().assume("poisoned")?;
         list.exists(id, None, Op::Any)
+    }
+}
+
+#[cfg(aranya_core_verif)]
+impl<CS, R> WriteState<CS, R>
+where
+    CS: CipherSuite,
+    R: Csprng,
+{
+    /// Verification only: raw view of the shared memory (see `VerifSnapshot`).
+    pub fn verif_snapshot(&self) -> super::shared::VerifSnapshot {
+        self.inner.verif_snapshot()
     }
 }
